@@ -29,7 +29,10 @@ RULE = ("a history on ONE long-lived build; every step draws one element of the 
         "logging.Handler, logging on => records are INFO and, for steps without absorbed failures, their number per "
         "dataset equals the number of cache-store requests of that dataset (= computed evaluations). part "
         "'cross-product' enumerates all 36 combinations x {cold, warm} on a fixed family of graphs (exhaustive for that "
-        "family); part 'histories' draws random programs and random combination sequences. Non-trivial = the history "
+        "family); part 'histories' draws random programs and random combination sequences. Epilogue of a third of the "
+        "histories (and of every context-manager combination of the cross product): a lazy Iter result over the root is "
+        "obtained and partly consumed inside cache.disabled() / logging.disabled() and drained after the block; every item "
+        "has the switches-off value and two following switches-off evaluations cache and log normally. Non-trivial = the history "
         "uses >=3 distinct combinations incl. a cache-off step on a graph that reaches a cacheable dataset; distinct = "
         "distinct (spec, history) hash.")
 ASSUMPTIONS = [
@@ -186,6 +189,55 @@ def check(case, ctx):
                     raise Violation("log-count", f"{where}: log records per dataset {dict(a)} but computed evaluations (cache-store requests) {dict(b)}")
                 if a:
                     labels.add("log-count-checked")
+    lazy = case.get("lazy")
+    if lazy:
+        # a lazily produced result (Iter over the root) obtained and partly consumed inside the context-manager switches
+        # and drained after they were left: every item has the all-switches-off value, and the switches end with the block
+        o = case["steps"][-1][0]
+        r = ref.run(o)
+        it = labrea.Iter(*([G.root] * 3))
+        items = []
+
+        def pull():
+            out = run(next, gen)
+            if not out.ok and isinstance(out.exc, StopIteration):
+                return False
+            items.append(out)
+            return out.ok        # (the producer stops at its first failure)
+        with contextlib.ExitStack() as stack:
+            if "cache" in lazy["ctx"]:
+                stack.enter_context(labrea.cache.disabled())
+            if "logging" in lazy["ctx"]:
+                stack.enter_context(labrea.logging.disabled())
+            gen = iter(it.evaluate(copy.deepcopy(o)))
+            more = True
+            for _ in range(lazy["pull"]):
+                more = more and pull()
+        while more:
+            more = pull()
+        for out in items:
+            if out.ok != r.ok or (r.ok and out.value != r.value):
+                raise Violation("value-changed-by-switch", f"lazy items of Iter(root x3) on {o} pulled {lazy['pull']} inside {lazy['ctx']} and the rest "
+                                                           f"after the block: item {out!r} but with all switches off the value is {r!r}")
+        labels.add("lazy-result-drained-after-block")
+        # the block is over: caching and logging behave as with all switches off again
+        first = step(G, spec, o, ("on", "on", "on"), owner)
+        second = step(G, spec, o, ("on", "on", "on"), owner)
+        if r.ok:
+            stable = (r.must - r.spec_bodies) & cacheable
+            again = set(second[1]) & stable
+            if again:
+                raise Violation("switch-outlives-block", f"after a lazy result was obtained inside {lazy['ctx']} (pulled {lazy['pull']} inside) and drained "
+                                                         f"outside, two evaluations on {o} with all switches off: the second ran {sorted(again)} again (caching still off)")
+            import collections
+            for nm, (out, bodies, effs, records, sets, toggled) in (("first", first), ("second", second)):
+                a = collections.Counter(ds_of_msg(m) for _, m in records)
+                b = collections.Counter(sets)
+                a.pop("?", None)
+                b.pop("?", None)
+                if not r.speculated and a != b:
+                    raise Violation("switch-outlives-block", f"after a lazy result was obtained inside {lazy['ctx']} and drained outside, {nm} evaluation on {o} "
+                                                             f"with all switches off: log records {dict(a)} but computed evaluations {dict(b)}")
     nontrivial = len(combos_used) >= 3 and any(c[0] != "on" for c in combos_used) and reached_cacheable
     ctx.done(case, nontrivial, labels)
 
@@ -201,7 +253,10 @@ def cases(draw, prof, maxlen):
         if start_off and i < 2:
             combo[0] = draw(st.sampled_from(CACHE[1:]))
         steps.append([o, combo])
-    return {"spec": spec, "steps": steps}
+    case = {"spec": spec, "steps": steps}
+    if draw(st.integers(0, 2)) == 0:
+        case["lazy"] = {"ctx": draw(st.sampled_from([["cache"], ["logging"], ["cache", "logging"]])), "pull": draw(st.integers(0, 3))}
+    return case
 
 
 # ---- fixed family for the exhaustive cross product ---------------------------------------------------------------
@@ -238,7 +293,10 @@ def enum_cross(ctx):
                 steps.append([dicts[0], list(combo)])
                 steps.append([dicts[1], list(combo)])
                 steps.append([dicts[0], ["on", "on", "on"]])
-                yield {"spec": spec, "steps": steps, "family": fi}
+                case = {"spec": spec, "steps": steps, "family": fi}
+                if combo[0] == "ctx" or combo[2] == "ctx":
+                    case["lazy"] = {"ctx": (["cache"] if combo[0] == "ctx" else []) + (["logging"] if combo[2] == "ctx" else []), "pull": 1 + (k % 2)}
+                yield case
     ctx.exhaustive["switch-cross-product-on-fixed-family"] = ctx.exhaustive.get("switch-cross-product-on-fixed-family", 0) + k // ctx.nshards
 
 
